@@ -689,8 +689,9 @@ def encode_esi(esi):
     raise OutOfRange('ESI type %r' % (t,))
 
 
-def expected_esi(esi):
-    b = encode_esi(esi)  # validates
+def expected_esi(esi, check=True):
+    if check:
+        encode_esi(esi)  # validates
     if isinstance(esi, int):
         return {'type': 0, 'value': esi}
     t, v = esi['type'], esi['value']
@@ -704,7 +705,7 @@ def expected_esi(esi):
         return {'type': 3, 'value': {'sys_mac_addr': mac_text(_mac(v['sys_mac_addr'])), 'ld_value': v['ld_value']}}
     if t == 4:
         return {'type': 4, 'value': {'router_id': v['router_id'], 'ld_value': v['ld_value']}}
-    assert t == 5 and b
+    assert t == 5
     return {'type': 5, 'value': {'as_num': v['as_num'], 'ld_value': v['ld_value']}}
 
 
@@ -786,12 +787,13 @@ def encode_evpn_route(route):
     return bytes([t, len(body)]) + body
 
 
-def expected_evpn_route(route):
-    encode_evpn_route(route)  # validates
+def expected_evpn_route(route, check=True):
+    if check:
+        encode_evpn_route(route)  # validates
     t, v = route['type'], route['value']
     out = {'rd': _canon_rd(v['rd'])}
     if t in (1, 2, 4, 5):
-        out['esi'] = expected_esi(v['esi'])
+        out['esi'] = expected_esi(v['esi'], False)
     if t in (1, 2, 3, 5):
         out['eth_tag_id'] = v['eth_tag_id']
     if t == 2:
@@ -917,8 +919,9 @@ def encode_nlri(afi, safi, items, withdraw=False, add_path=False, opts=None):
     return b''.join(flowspec_rule(r, opts) for r in items)
 
 
-def expected_nlri(afi, safi, items, withdraw=False, add_path=False, opts=None):
-    encode_nlri(afi, safi, items, withdraw, add_path, opts)  # validates
+def expected_nlri(afi, safi, items, withdraw=False, add_path=False, opts=None, check=True):
+    if check:
+        encode_nlri(afi, safi, items, withdraw, add_path, opts)  # validates
     on = _addpath_on(add_path, afi, safi)
     ver = _afi_version(afi)
     if safi == 1:
@@ -936,7 +939,7 @@ def expected_nlri(afi, safi, items, withdraw=False, add_path=False, opts=None):
             out.append(e)
         return out
     if (afi, safi) == (25, 70):
-        return [expected_evpn_route(r) for r in items]
+        return [expected_evpn_route(r, False) for r in items]
     return [expected_flowspec_rule(r) for r in items]
 
 
@@ -1095,8 +1098,9 @@ def encode_update(msg, asn4=False, add_path=False, opts=None):
 
 
 # ================================================================== expected decoded form
-def expected_attr(code, value, asn4, add_path=False, opts=None):
-    attr_value(code, value, asn4, add_path, opts)  # validates (raises OutOfRange)
+def expected_attr(code, value, asn4, add_path=False, opts=None, check=True):
+    if check:
+        attr_value(code, value, asn4, add_path, opts)  # validates (raises OutOfRange)
     if code in (1, 4, 5):
         return value
     if code in (2, 17):
@@ -1118,12 +1122,12 @@ def expected_attr(code, value, asn4, add_path=False, opts=None):
     afi, safi = value['afi_safi']
     if code == 14:
         out = {'afi_safi': (afi, safi), 'nexthop': _expected_nexthop(afi, safi, value),
-               'nlri': expected_nlri(afi, safi, value['nlri'], False, add_path, opts)}
+               'nlri': expected_nlri(afi, safi, value['nlri'], False, add_path, opts, False)}
         if (afi, safi) == (2, 1) and value.get('linklocal_nexthop'):
             out['linklocal_nexthop'] = ip6_text(_ip6(value['linklocal_nexthop']))
         return out
     assert code == 15
-    return {'afi_safi': (afi, safi), 'withdraw': expected_nlri(afi, safi, value['withdraw'], True, add_path, opts)}
+    return {'afi_safi': (afi, safi), 'withdraw': expected_nlri(afi, safi, value['withdraw'], True, add_path, opts, False)}
 
 
 def expected(msg, asn4, add_path=False, opts=None):
@@ -1131,7 +1135,7 @@ def expected(msg, asn4, add_path=False, opts=None):
     encode_body(msg, asn4, add_path, opts)  # raises OutOfRange for an input without encoding
     on4 = _addpath_on(add_path, 1, 1)
     attr = msg.get('attr') or {}
-    return {'attr': dict((c, expected_attr(c, v, asn4, add_path, opts)) for c, v in attr.items()),
+    return {'attr': dict((c, expected_attr(c, v, asn4, add_path, opts, False)) for c, v in attr.items()),
             'nlri': expected_prefix_list(msg.get('nlri') or [], 4, on4, opts),
             'withdraw': expected_prefix_list(msg.get('withdraw') or [], 4, on4, opts)}
 
